@@ -26,27 +26,39 @@ def db : UniDb := ⟨fun nm =>
   else if nm = asciiStr "QUOTATION MARK" then some 0x22
   else none⟩
 
-/-- the registered test commands of the harness: every signature shape -/
-def cmds (name : Str) : Option Sig :=
+/-- the registered test commands of the harness: every signature shape and every convertible parameter type -/
+def cmds (name : Str) : Option SigT :=
   if name = asciiStr "t.s" then some ⟨[], some .str⟩
   else if name = asciiStr "t.v" then some ⟨[], some .verbatim⟩
   else if name = asciiStr "t.one" then some ⟨[.str], none⟩
   else if name = asciiStr "t.two" then some ⟨[.str, .verbatim], none⟩
   else if name = asciiStr "t.mix" then some ⟨[.verbatim], some .str⟩
   else if name = asciiStr "t.none" then some ⟨[], none⟩
+  else if name = asciiStr "t.i" then some ⟨[], some .int⟩
+  else if name = asciiStr "t.b" then some ⟨[], some .bool⟩
+  else if name = asciiStr "t.p" then some ⟨[], some .path⟩
+  else if name = asciiStr "t.ibp" then some ⟨[.int, .bool, .path], none⟩
   else none
+
+/-- the process environment the harness fixes: HOME=/h/me/ and the one password-database entry it relies on -/
+def env : Env := ⟨some (asciiStr "/h/me/"), fun n => if n = asciiStr "root" then some (asciiStr "/root") else none⟩
+
+def showTVal : TVal → String
+  | .s x => encodeStr x
+  | .i n => "i:" ++ toString n
+  | .b x => if x then "b:1" else "b:0"
 
 def stepLine (line : String) : String :=
   match fields line with
   | ["exec", l] =>
     match strOf l with
     | some l =>
-      match executeSig db cmds l with
+      match executeT db env cmds l with
       | .arity => "arity"
       | .noCommand => "nocmd"
       | .unknown => "unknown"
       | .badArg => "badarg"
-      | .call name args => " ".intercalate ("call" :: encodeStr name :: toString args.length :: args.map encodeStr)
+      | .call name args => " ".intercalate ("call" :: encodeStr name :: toString args.length :: args.map showTVal)
     | none => "bad-op"
   | ["quote", s] =>
     match strOf s with
